@@ -107,6 +107,14 @@ def cases(tier, seed):
             for cr in ((True, False) if solver == "damped" else (True,)):
                 out.append({"key": f"long/{solver}/{m}x{n}/g={g}/res={int(cr)}", "solver": solver, "m": m, "n": n, "comp": [1] * p, "how": "head", "kind": "hh", "gamma": g, "cr": cr,
                             "sparse": False, "mode": "traj", "vals": vals, "K": K_})
+    # ill-conditioned (cond 2^20) tall / wide / square inputs at budgets where the Hermitian defects ||AX - (AX)^H||, ||XA - (XA)^H|| are far
+    # above rounding level and differ from each other: every history key must report its OWN residual of the returned iterate
+    for m, n in ((9, 5), (6, 3), (5, 9), (3, 6), (5, 5)):
+        p = min(m, n)
+        vals = [1.0, 0.625, 0.3125, 0.75, 0.5][: p - 1] + [2.0 ** -20]
+        for solver, g, K_ in (("damped", 1.0, 50), ("third", None, 35)):
+            out.append({"key": f"mid/{solver}/{m}x{n}/g={g}", "solver": solver, "m": m, "n": n, "comp": [1] * p, "how": "head", "kind": "hh", "gamma": g, "cr": True,
+                        "sparse": False, "mode": "traj", "vals": vals, "K": K_})
     for c in out:
         c["tier"] = tier
     return out
@@ -257,9 +265,12 @@ def run_case(case, seed):
             if set(lens.values()) != {k}:
                 fails.append(fail("history_length", f"k={k}: {lens}", k=k, **tags))
                 break
+            nX = O.fro(X)
+            key_scale = {"AXA-A": nA * nA * nX, "XAX-X": nX * nX * nA, "AX-herm": nA * nX, "XA-herm": nA * nX}
             for key, val in pr.items():
                 rep = resid[key][-1]
-                if abs(rep - val) > O.budget(max(nA, 1.0) * max(O.fro(X), 1.0) ** 2 * max(nA, 1.0), dims=64 * max(m, n)) * growth + 1e-12 * val:
+                # two evaluations of the same residual differ by the rounding of the products involved: a few n u (product of the factor norms)
+                if abs(rep - val) > 64 * O.U * max(m, n) * max(key_scale[key], 1e-300) * growth + 1e-12 * val:
                     fails.append(fail("residual_history_truthful", f"k={k}: reported {key} = {rep!r}, recomputed from the returned iterate {val!r}", k=k, hist=key, **tags))
             cur = {key: list(v) for key, v in resid.items()}
             if prev_res is not None and any(cur[key][: len(prev_res[key])] != prev_res[key] for key in cur):
